@@ -267,11 +267,141 @@ pub fn generate(repo: &PathBuf) -> Result<String, String> {
         return Err("build_node: the record store is configured before check_and_wipe_storage_dir_if_necessary runs".into());
     }
 
+    // ---- "the same identity": which directory and which seed a start hands the record store ------------------------
+    // build_node: `let peer_id = PeerId::from(self.keypair.public());`
+    //             `let encryption_seed: [u8; 16] = peer_id.to_bytes().get(..N).expect(..).try_into().expect(..);`
+    //             `let storage_dir_path = root_dir.join("<literal>");`   (root_dir: the parameter)
+    //             `NodeRecordStoreConfig { storage_dir: storage_dir_path, historic_quote_dir: root_dir.clone(), encryption_seed, .. }`
+    // Two-sided: the shapes above give `true`; an expression drawing on something that differs from start to start
+    // (rand / OsRng / thread_rng / SystemTime / Instant / process::id / Uuid / temp_dir / format!) gives `false`;
+    // anything else is UNTRANSLATABLE.
+    const VOLATILE: [&str; 10] = ["rand", "OsRng", "thread_rng", "SystemTime", "Instant", "process::id", "Uuid", "temp_dir", "format!", "now("];
+    struct Locals(Vec<(String, String)>, Vec<(String, Vec<(String, String)>)>);
+    impl<'ast> Visit<'ast> for Locals {
+        fn visit_local(&mut self, l: &'ast syn::Local) {
+            let pat = match &l.pat {
+                syn::Pat::Ident(i) => Some(i.ident.to_string()),
+                syn::Pat::Type(t) => match &*t.pat {
+                    syn::Pat::Ident(i) => Some(i.ident.to_string()),
+                    _ => None,
+                },
+                _ => None,
+            };
+            if let (Some(name), Some(init)) = (pat, &l.init) {
+                self.0.push((name, ts(&*init.expr)));
+            }
+            syn::visit::visit_local(self, l);
+        }
+        fn visit_expr_struct(&mut self, e: &'ast syn::ExprStruct) {
+            let name = e.path.segments.last().map(|x| x.ident.to_string()).unwrap_or_default();
+            let fields = e.fields.iter().map(|f| (ts(&f.member), ts(&f.expr))).collect();
+            self.1.push((name, fields));
+            syn::visit::visit_expr_struct(self, e);
+        }
+    }
+    let mut loc = Locals(vec![], vec![]);
+    loc.visit_block(&bn.block);
+    let one = |name: &str| -> Result<String, String> {
+        let v: Vec<&(String, String)> = loc.0.iter().filter(|x| x.0 == name).collect();
+        match v.as_slice() {
+            [x] => Ok(x.1.clone()),
+            _ => Err(format!("build_node: expected exactly one `let {name} = …`, found {}", v.len())),
+        }
+    };
+    let bn_params: Vec<String> = bn.sig.inputs.iter().filter_map(|a| match a {
+        syn::FnArg::Typed(t) => match &*t.pat {
+            syn::Pat::Ident(i) => Some(i.ident.to_string()),
+            _ => None,
+        },
+        _ => None,
+    }).collect();
+    if !bn_params.iter().any(|p| p == "root_dir") {
+        return Err("build_node: no parameter `root_dir`".into());
+    }
+    let volatile = |e: &str| VOLATILE.iter().any(|v| e.contains(v));
+    let seed_init = one("encryption_seed")?;
+    let (seed_from_peer, seed_bytes) = {
+        let re_head = "peer_id.to_bytes().get(..";
+        let ok = seed_init.strip_prefix(re_head).and_then(|rest| {
+            let (n, tail) = rest.split_once(')')?;
+            let n: u64 = n.parse().ok()?;
+            // `.expect("…").try_into().expect("…")`
+            let t = tail.strip_prefix(".expect(\"")?;
+            let (_, t) = t.split_once("\").try_into().expect(\"")?;
+            if t.ends_with("\")") && !t[..t.len() - 2].contains('"') { Some(n) } else { None }
+        });
+        match ok {
+            Some(n) => {
+                if one("peer_id")? != "PeerId::from(self.keypair.public())" {
+                    return Err(format!("build_node: `peer_id` is `{}`, expected `PeerId::from(self.keypair.public())`", one("peer_id")?));
+                }
+                (true, n)
+            }
+            None if volatile(&seed_init) => (false, 16),
+            None => return Err(format!("build_node: unrecognised encryption_seed expression `{seed_init}`")),
+        }
+    };
+    let dir_init = one("storage_dir_path")?;
+    let (dir_stable, dir_name) = match dir_init.strip_prefix("root_dir.join(\"").and_then(|r| r.strip_suffix("\")")) {
+        Some(lit) if !lit.contains('"') && !lit.contains('\\') => (true, lit.to_string()),
+        _ if volatile(&dir_init) => (false, String::new()),
+        _ => return Err(format!("build_node: unrecognised storage_dir_path expression `{dir_init}`")),
+    };
+    let cfgs: Vec<&(String, Vec<(String, String)>)> = loc.1.iter().filter(|x| x.0 == "NodeRecordStoreConfig").collect();
+    let [cfg_lit] = cfgs.as_slice() else { return Err(format!("build_node: expected one NodeRecordStoreConfig literal, found {}", cfgs.len())) };
+    let field = |n: &str| cfg_lit.1.iter().find(|f| f.0 == n).map(|f| f.1.clone());
+    if field("storage_dir").as_deref() != Some("storage_dir_path") {
+        return Err(format!("build_node: NodeRecordStoreConfig.storage_dir is {:?}, expected `storage_dir_path`", field("storage_dir")));
+    }
+    if field("encryption_seed").as_deref() != Some("encryption_seed") {
+        return Err(format!("build_node: NodeRecordStoreConfig.encryption_seed is {:?}, expected `encryption_seed`", field("encryption_seed")));
+    }
+    let quote_root = match field("historic_quote_dir").as_deref() {
+        Some("root_dir.clone()") | Some("root_dir") => true,
+        Some(e) if volatile(e) => false,
+        other => return Err(format!("build_node: unrecognised historic_quote_dir {other:?}")),
+    };
+    if !call[..close].contains("storage_dir_path") {
+        return Err("build_node: check_and_wipe_storage_dir_if_necessary is not called on storage_dir_path".into());
+    }
+    // record_store.rs: the cipher is a function of the configured seed alone
+    let rs_rel = "ant-networking/src/record_store.rs";
+    let rs_file = parse_file(&repo.join(rs_rel))?;
+    let wc = impl_fn(&rs_file, "NodeRecordStore", None, "with_config")?;
+    let mut wloc = Locals(vec![], vec![]);
+    wloc.visit_block(&wc.block);
+    let enc: Vec<&(String, String)> = wloc.0.iter().filter(|x| x.0 == "encryption_details").collect();
+    let [enc] = enc.as_slice() else { return Err("with_config: expected exactly one `let encryption_details = …`".into()) };
+    let derive = free_fn(&rs_file, "derive_aes256gcm_siv_from_seed")?;
+    let derive_body = ts(&derive.block);
+    let cipher_from_seed = if enc.1 == "derive_aes256gcm_siv_from_seed(&config.encryption_seed)" {
+        if volatile(&derive_body) {
+            false
+        } else if derive_body.contains("Hkdf::<Sha256>::new(Some(salt),seed)") && derive_body.contains("letsalt=b\"") {
+            true
+        } else {
+            return Err("derive_aes256gcm_siv_from_seed: unrecognised key derivation".into());
+        }
+    } else if volatile(&enc.1) {
+        false
+    } else {
+        return Err(format!("with_config: unrecognised encryption_details expression `{}`", enc.1));
+    };
+    let store_lits: Vec<&(String, Vec<(String, String)>)> = wloc.1.iter().filter(|x| x.0 == "NodeRecordStore").collect();
+    let [store_lit] = store_lits.as_slice() else { return Err("with_config: expected one NodeRecordStore literal".into()) };
+    if store_lit.1.iter().find(|f| f.0 == "encryption_details").map(|f| f.1.as_str()) != Some("encryption_details") {
+        return Err("with_config: NodeRecordStore.encryption_details is not the derived `encryption_details`".into());
+    }
+
     let mut s = header(rel);
     s.push_str("namespace SafeNet.Gen.Startup\n");
     s.push_str(&format!("/-- `check_and_wipe_storage_dir_if_necessary` truncates and rewrites `<root>/network_key_version` only inside the branch `cur_version_str != prev_version_str` (otherwise: unconditionally, at top level) -/\ndef versionWrittenOnlyOnMismatch : Bool := {}\n", lean_bool(only_on_mismatch)));
     s.push_str(&format!("/-- the storage directory is wiped before the version file is truncated and rewritten (otherwise: after) -/\ndef wipeBeforeVersionWrite : Bool := {}\n", lean_bool(wipe_first)));
     s.push_str("/-- `NetworkBuilder::build_node` runs the check with `get_network_id()` (result propagated with `?`) before it configures the record store -/\ndef checkedAtEveryStart : Bool := true\n");
+    s.push_str(&format!("/-- `build_node` takes `encryption_seed` from the node's identity alone: the first `seedBytes` bytes of `PeerId::from(self.keypair.public()).to_bytes()` (otherwise: from something that differs from start to start) -/\ndef seedFromPeerId : Bool := {}\ndef seedBytes : Nat := {}\n", lean_bool(seed_from_peer), seed_bytes));
+    s.push_str(&format!("/-- the record store's directory is `root_dir.join(storageDirName)` with a string literal, the same at every start, it is the directory the start-up check may wipe, and it is what `NodeRecordStoreConfig.storage_dir` gets -/\ndef storageDirStable : Bool := {}\ndef storageDirName : String := \"{}\"\n", lean_bool(dir_stable), dir_name));
+    s.push_str(&format!("/-- `historic_quote_dir` is `root_dir` -/\ndef quoteDirIsRoot : Bool := {}\n", lean_bool(quote_root)));
+    s.push_str(&format!("/-- `with_config` derives cipher and nonce prefix from `config.encryption_seed` alone (`derive_aes256gcm_siv_from_seed`: HKDF-SHA256 with a constant salt) -/\ndef cipherFromSeedOnly : Bool := {}\n", lean_bool(cipher_from_seed)));
     s.push_str("end SafeNet.Gen.Startup\n");
     Ok(s)
 }
